@@ -115,8 +115,16 @@ func GenPFB(t *sim.Tape, maxSegs, maxLen int, allow ...PFBAnomaly) (*PFBStream, 
 				p.Trailing = make([]byte, t.Range(1, 16))
 			case 2: // zero padding followed by something
 				p.Trailing = append(make([]byte, t.Range(4, 12)), t.Bytes(t.Range(1, 8))...)
-			default: // what looks like another segment
-				p.Trailing = append([]byte{0x80, byte(1 + t.Choose(2)), 3, 0, 0, 0}, 'x', 'y', 'z')
+			default: // what looks like another segment, directly after the marker
+				// or after the four bytes a six-byte header read takes along
+				p.Trailing = nil
+				if t.Bool(1, 2) {
+					p.Trailing = t.Bytes(4)
+				}
+				p.Trailing = append(p.Trailing, 0x80, byte(1+t.Choose(2)), 3, 0, 0, 0, 'x', 'y', 'z')
+				if t.Bool(1, 2) {
+					p.Trailing = append(p.Trailing, 0x80, 3)
+				}
 			}
 		}
 	case PFBShortBinary, PFBShortText:
